@@ -76,7 +76,7 @@ def check(model, R, tier):
             stores = [e for e in I.events if e['kind'] == 'state-store']
             seen = set()
             for e in stores:
-                k = (e['loc'], tuple(e['aliases']))
+                k = (e['loc'], norm(e['stmt']), tuple(e['aliases']))
                 if k in seen:
                     continue
                 seen.add(k)
